@@ -141,6 +141,7 @@ class Assertion:
         resp = {"clientDataJSON": b64u(self.cdj), "authenticatorData": b64u(self.ad), "signature": b64u(self.sig)}
         if self.user_handle is not None:
             resp["userHandle"] = b64u(self.user_handle)
+        resp.update(getattr(self, "extra_response", None) or {})          # members no assertion response defines (decoys)
         import copy
         d = {"id": self.id_text, "rawId": b64u(self.cred_id), "response": resp, "type": self.typ,
              "clientExtensionResults": copy.deepcopy(getattr(self, "client_ext", None) or {})}
